@@ -40,6 +40,129 @@ def spec_centres(d):
     return None
 
 
+def figure_level(ctx, rng, d, ds, ems, polys, centres, gdims, shape, case):
+    from matplotlib.collections import PolyCollection
+    from matplotlib.quiver import Quiver
+    from emsarray import plot as ems_plot
+    ncell = len(polys)
+    want_cells = [k for k, p in enumerate(polys) if p is not None]
+    nt = 3
+    # frame f of cell n holds 10000 f + 1000 + n (components: + 2000 / + 3000); a cell missing in one frame only
+    series = {}
+    fuv = rng.random() < 0.5           # the two components of a vector share their dimension order
+    flip = {'s': rng.random() < 0.5, 'u': fuv, 'v': fuv}
+    for nm, base in (('s', 1000), ('u', 2000), ('v', 3000)):
+        vals = numpy.stack([(numpy.arange(ncell, dtype='f8') + base + 10000 * f).reshape(shape) for f in range(nt)])
+        da = xarray.DataArray(vals, dims=['record'] + list(gdims), attrs={'units': 'm'})
+        if len(gdims) == 2 and flip[nm]:
+            da = da.transpose('record', *list(gdims)[::-1])
+        series[nm] = da
+    series['s'].values.reshape(nt, -1)[1, want_cells[0]] = numpy.nan if series['s'].dims[1:] == tuple(gdims) else series['s'].values.reshape(nt, -1)[1, want_cells[0]]
+    tcoord = xarray.DataArray(numpy.array(['2001-01-01', '2001-01-02', '2001-01-03'], dtype='datetime64[ns]'), dims=['record'], name='t')
+    flat = {nm: numpy.stack([da.isel(record=f).transpose(*gdims).values.reshape(-1) for f in range(nt)]) for nm, da in series.items()}
+
+    def artists(fig_):
+        ax = fig_.axes[0]
+        pcs = [c for c in ax.collections if isinstance(c, PolyCollection) and not isinstance(c, Quiver)]
+        qs = [c for c in ax.collections if isinstance(c, Quiver)]
+        return pcs, qs
+
+    def judge(pc, q, f, what):
+        paths = [path_ring(p_) for p_ in pc.get_paths()]
+        arr = numpy.asarray(pc.get_array(), dtype='f8').reshape(-1)
+        if len(paths) != len(want_cells) or len(arr) != len(want_cells):
+            return f'{what}: {len(paths)} patches and {len(arr)} values for {len(want_cells)} cells with geometry'
+        for pos, k in enumerate(want_cells):
+            if paths[pos] != poly_ring(polys[k]):
+                return f'{what}: patch {pos} is not the outline of cell {k}'
+            w = flat['s'][f][k]
+            if not (arr[pos] == w or (arr[pos] != arr[pos] and w != w)):
+                return f'{what}: patch {pos} (cell {k}) is coloured with {arr[pos]}, the value of that cell in that frame is {w}'
+        X, Y, U, V = (numpy.asarray(a, dtype='f8').reshape(-1) for a in (q.X, q.Y, q.U, q.V))
+        if not (len(X) == len(U) == len(V) == ncell):
+            return f'{what}: {len(X)} arrows, {len(U)} components for {ncell} cells'
+        for k in range(ncell):
+            cx, cy = centres[k]
+            same_pos = (X[k] == cx or (X[k] != X[k] and cx != cx)) and (Y[k] == cy or (Y[k] != Y[k] and cy != cy))
+            if not same_pos or U[k] != flat['u'][f][k] or V[k] != flat['v'][f][k]:
+                return (f'{what}: arrow {k} at ({X[k]}, {Y[k]}) with ({U[k]}, {V[k]}); cell {k} is at ({cx}, {cy}) with '
+                        f'({flat["u"][f][k]}, {flat["v"][f][k]})')
+        return None
+
+    # one field
+    f0 = 2
+    figs = []
+    try:
+        fig1 = plt.figure()
+        figs.append(fig1)
+        ctx.case((case['dataset'], 'plot_on_figure'), len(want_cells) < ncell)
+        ctx.count('figure_level:plot_on_figure')
+        with warnings.catch_warnings():
+            warnings.simplefilter('ignore')
+            try:
+                r = ('ok', ems_plot.plot_on_figure(fig1, ems, scalar=series['s'].isel(record=f0),
+                                                   vector=(series['u'].isel(record=f0), series['v'].isel(record=f0)),
+                                                   coast=False, gridlines=False))
+            except Exception as e_:     # noqa: BLE001
+                import traceback
+                r = ('err', f'{type(e_).__name__}: {e_} | ' + ' <- '.join(f'{fr.name}:{fr.lineno}' for fr in traceback.extract_tb(e_.__traceback__)[-4:]))
+        if r[0] != 'ok':
+            ctx.report('property', f'plot_on_figure failed: {r[1]}', dict(case, through='plot_on_figure'))
+        else:
+            pcs, qs = artists(fig1)
+            bad = 'plot_on_figure: the figure holds no polygon collection / no arrows' if len(pcs) != 1 or len(qs) != 1 else \
+                judge(pcs[0], qs[0], f0, 'plot_on_figure')
+            if not bad:
+                plotted = [flat['s'][f0][k] for k in want_cells if flat['s'][f0][k] == flat['s'][f0][k]]
+                clim = pcs[0].get_clim()
+                if plotted and (clim[0] != min(plotted) or clim[1] != max(plotted)):
+                    bad = f'plot_on_figure: colour limits {clim}, the plotted values span ({min(plotted)}, {max(plotted)})'
+            if bad:
+                ctx.report('property', bad, dict(case, through='plot_on_figure'))
+        # a series
+        fig2 = plt.figure()
+        figs.append(fig2)
+        ctx.case((case['dataset'], 'animate_on_figure'), len(want_cells) < ncell)
+        ctx.count('figure_level:animate_on_figure')
+        with warnings.catch_warnings():
+            warnings.simplefilter('ignore')
+            r = attempt(lambda: ems_plot.animate_on_figure(fig2, ems, coordinate=tcoord, scalar=series['s'],
+                                                           vector=(series['u'], series['v']), coast=False, gridlines=False,
+                                                           repeat=False))
+        if r[0] != 'ok':
+            ctx.report('property', f'animate_on_figure failed: {r[1]}', dict(case, through='animate_on_figure'))
+            return
+        anim = r[1]
+        pcs, qs = artists(fig2)
+        if len(pcs) != 1 or len(qs) != 1:
+            ctx.report('property', 'animate_on_figure: the figure holds no polygon collection / no arrows', dict(case, through='animate_on_figure'))
+            return
+        allv = [flat['s'][f][k] for f in range(nt) for k in want_cells if flat['s'][f][k] == flat['s'][f][k]]
+        clim = pcs[0].get_clim()
+        if allv and (clim[0] != min(allv) or clim[1] != max(allv)):
+            ctx.report('property', f'animate_on_figure: colour limits {clim}, the values plotted over the series span ({min(allv)}, {max(allv)})',
+                       dict(case, through='animate_on_figure'))
+            return
+        for f in (1, 2, 0):
+            with warnings.catch_warnings():
+                warnings.simplefilter('ignore')
+                r = attempt(lambda: anim._func(f))
+            if r[0] != 'ok':
+                ctx.report('property', f'animate_on_figure: drawing frame {f} failed: {r[1]}', dict(case, through='animate_on_figure'))
+                return
+            bad = judge(pcs[0], qs[0], f, f'animate_on_figure frame {f}')
+            if bad:
+                ctx.report('property', bad, dict(case, through='animate_on_figure', frame=f))
+                return
+        try:
+            anim.event_source.stop()
+        except Exception:     # noqa: BLE001
+            pass
+    finally:
+        for f_ in figs:
+            plt.close(f_)
+
+
 def run(ctx):
     rng = ctx.rng
     quick = ctx.tier == 'quick'
@@ -111,6 +234,12 @@ def run(ctx):
         ds['scalar'] = da
         how = rng.choice(['name', 'array'])
         arg = 'scalar' if how == 'name' else ds['scalar']
+        derived = 0.0
+        if how == 'array' and n % 2 == 0:
+            # a field derived from the stored one (unit conversion, anomaly): xarray keeps the name, the values are the new ones
+            derived = 500.0
+            arg = ds['scalar'] + derived
+            how = 'array derived from the variable, same name'
         if how == 'array' and n % 2 == 1:
             # the array carries coordinate labels of its own on the surface dimensions (another spelling of the same axis:
             # rounded through float32, or counted the other way round): values go to cells by position
@@ -133,7 +262,7 @@ def run(ctx):
         paths = [path_ring(p) for p in pc.get_paths()]
         arr = numpy.asarray(pc.get_array(), dtype='f8')
         clim = pc.get_clim()
-        flat = tags.reshape(-1)
+        flat = tags.reshape(-1) + derived
         want_cells = [k for k, p in enumerate(polys) if p is not None]
         bad = None
         if len(paths) != len(want_cells) or len(arr) != len(want_cells):
@@ -235,6 +364,10 @@ def run(ctx):
                     break
         if badq:
             ctx.report('property', badq, case)
+            continue
+        # ---- the figure-level helpers build the same artists: plot_on_figure for one field, animate_on_figure for a series
+        if n % 2 == 0:
+            figure_level(ctx, rng, d, ds, ems, polys, centres, gdims, shape, dict(case))
     plt.close(fig)
     model = coq_eval_sharded(['Model.Export'], exprs, shard=6, workers=12)
     ctx.leg('collections', len(exprs))
